@@ -443,6 +443,10 @@ def run_fuzz_children(mod, modname, tier, seed, total):
     import shutil
 
     shutil.rmtree(tmp, ignore_errors=True)
+    if info["executions"] == 0:
+        # the driver ran and decoded nothing (seen once: every fuzz input overran because of a library bug in the byte decoder):
+        # a silent zero would read as coverage that was never there
+        total.harness_errors.append("coverage-guided driver: 0 executions in all children")
     return info
 
 
@@ -464,7 +468,7 @@ def finish(mod, tier, seed, total, wall, n_replays, n_enum, fuzz_info=None):
     mandatory = getattr(mod, "MANDATORY", {}).get(tier, [])
     missing = [l for l in mandatory if total.labels.get(l, 0) == 0]
     budget = mod.BUDGET[tier]
-    min_eval = budget.get("min_evaluations", max(1, (budget["examples"] + n_replays + n_enum) // 4))
+    min_eval = budget.get("min_evaluations", max(1, (budget["examples"] + n_replays + n_enum) // 10))
     inconclusive = []
     if total.harness_errors:
         inconclusive.append(f"{len(total.harness_errors)} harness error(s)")
